@@ -47,9 +47,9 @@ func NewStats() *Stats {
 		States: map[string]struct{}{}, Sig: sha256.New()}
 }
 
-func (s *Stats) Fault(k string)  { s.Faults[k]++; s.Sig.Write([]byte("F:" + k + ";")) }
-func (s *Stats) Probe(k string)  { s.Probes[k]++ }
-func (s *Stats) State(k string)  { s.States[k] = struct{}{} }
+func (s *Stats) Fault(k string) { s.Faults[k]++; s.Sig.Write([]byte("F:" + k + ";")) }
+func (s *Stats) Probe(k string) { s.Probes[k]++ }
+func (s *Stats) State(k string) { s.States[k] = struct{}{} }
 func (s *Stats) Op(k string, ok bool) {
 	s.Ops[k]++
 	if ok {
